@@ -78,6 +78,16 @@ def run(ctx):
             elif canon(rd.get(cid)) != m[2:]:
                 from .common import first_diff
                 corr.disagreements.append((cid, 'game_of r differs from the real reader: ' + first_diff(canon(rd.get(cid)), m[2:]), {'case': cid, 'replay_hex': f[0]}))
+    # are the files of real recorders inside the class the theorems quantify over?  (Model/Abstract.v: rebuild the abstract replay
+    # from the parsed game, check wf_replay and emit = file, by computation in the extracted model)
+    if getattr(ctx, 'model_ok', True) and fx:
+        ic = core.run_parallel(core.run_model, 'inclass', [(n, [b.hex()]) for n, b in fx], n=8)
+        inside = sorted(n for n, _ in fx if (ic.get(n) or ['?'])[0] == 'inclass=1')
+        outside = sorted(n for n, _ in fx if (ic.get(n) or ['?'])[0] == 'inclass=0')
+        unread = sorted(n for n, _ in fx if (ic.get(n) or ['?'])[0] not in ('inclass=1', 'inclass=0'))
+        corr.count('fixtures_in_theorem_class', len(inside)); corr.count('fixtures_outside_theorem_class', len(outside))
+        corr.count('fixtures_not_read_by_model', len(unread))
+        corr.sample({'fixtures_in_theorem_class': inside, 'outside': outside, 'not_read_by_executable_model(shift-jis names)': unread})
     r0 = reps[0]
     corr.sample({'version': list(r0.ver), 'ports': r0.ports, 'frames': [f.fid for f in r0.frames], 'end': r0.end, 'bytes': len(cases[0][1][0]) // 2})
     corr.sample({'fixtures': [n for n, _ in fx]})
